@@ -137,6 +137,7 @@ fn run_mixed(t: &Tape, want_desc: bool) -> CaseResult {
 
 pub fn suites() -> Vec<Suite> {
     vec![
+        crate::props::funcs::suite_lp_share(),
         Suite {
             name: "provisions",
             about: "liquidity-heavy histories with first provisions left to the generator (whitelist/minimum configurations, donations before the first provision)",
